@@ -50,8 +50,15 @@ META = dict(
     note="expected values come from Python/ctypes/gcc, never from cffi; result-widening to ffi_arg is invisible on "
          "x86-64 (libffi's closure return path re-extends from the first bytes), so it is not judged")
 
-UNION_DECL = "union u1 { int i; double d; char c[3]; };\n"
+UNION_DECL = "union u1 { int i; double d; char c[3]; };\ntypedef int (*fp_t)(int);\n"
 PTRS = ["char *", "int *", "struct s3 *"]
+# further types of the statement ("every signature over supported types"), exercised as `X f(X)`, `long long f(X)` and
+# `X f(long long)` (family "x"): enums (CT_IS_ENUM + signed/unsigned), typedef'ed and stdint integer names (distinct
+# ctype objects), the 2- and 4-byte unicode characters, void * / pointer to pointer / function pointer
+X_INTS = ["enum e1", "enum e2", "uint8_t", "int16_t", "int32_t", "uint64_t", "u16_t", "i64_t", "intptr_t", "size_t"]
+X_TYPES = X_INTS + ["char16_t", "char32_t", "void *", "char **", "fp_t"]
+PTRK = ("pc", "pi", "ps", "pv", "ppc")
+CNAME = {"char **": "char * *", "fp_t": "int(*)(int)"}
 T_ARGS = STD_INTS + ["_Bool", "char", "wchar_t", "float", "double", "long double"] + PTRS + STRUCTS + ["union u1"]
 T_RETS = T_ARGS + ["void"]
 BIN8 = ["signed char", "unsigned short", "int", "unsigned long", "float", "double", "int *", "struct s3"]
@@ -79,6 +86,12 @@ D_VALUES = [0.0, -0.0, 1.5, -2.25, float("inf"), float("-inf"), float("nan"), 1.
             2.2250738585072014e-308, 0.1, 9007199254740993.0]
 C_VALUES = [0, 1, 65, 127, 128, 255]
 W_VALUES = [0, 97, 0xff, 0x100, 0xd7ff, 0xe000, 0xffff, 0x10000, 0x10ffff]
+# argument tables of the character types; the values after the valid ones have no Python counterpart (not a code
+# point): the arguments cannot be converted, see UNCALLABLE below
+W_ARGS = {"wchar_t": W_VALUES + [0x110000, -1],
+          "char32_t": W_VALUES + [0xd800, 0x110000, 0xffffffff],
+          "char16_t": [0, 97, 0xff, 0x100, 0xd7ff, 0xd800, 0xdfff, 0xe000, 0xffff]}
+BOOL_BAD_BYTES = [2, 255]              # a _Bool object whose byte is neither 0 nor 1 (stored with memcpy)
 P_OFFSETS = [None, 0, 8, 16]            # NULL or c14_static + k
 
 LEAF_SIZE = {"unsigned char": 1, "short": 2, "int": 4, "long": 8, "long long": 8}
@@ -90,6 +103,10 @@ def kind_of(t):
         return "ld"
     if t == "union u1":
         return "union"
+    if t == "char **":
+        return "ppc"
+    if t == "fp_t":
+        return "fp"
     return c13.kind_of(t)
 
 
@@ -99,9 +116,9 @@ def model():
     if _MODEL is not None:
         return _MODEL
     rng = c13.facts()
-    src = ["#include <stdio.h>\n#include <stddef.h>\n#include <string.h>\n#include <wchar.h>\n", c13.STRUCT_DECLS, UNION_DECL,
-           "int main(void){\n"]
-    for t in T_ARGS:
+    src = ["#include <stdio.h>\n#include <stddef.h>\n#include <stdint.h>\n#include <string.h>\n#include <wchar.h>\n"
+           "#include <uchar.h>\n#include <sys/types.h>\n", c13.STRUCT_DECLS, UNION_DECL, "int main(void){\n"]
+    for t in T_ARGS + X_TYPES:
         src.append('printf("Z|%s|%%d\\n", (int)sizeof(%s));\n' % (t, t))
     for t, leaves in S_LEAVES.items():
         for path, lt in leaves:
@@ -140,12 +157,23 @@ def arg_values(t, small=False):
         if small:
             lo, hi = model()["range"][t]
             vs = sorted({lo, -1 if lo < 0 else 1, 0, hi})
+        elif k == "bool":
+            vs = vs + BOOL_BAD_BYTES
         return vs
-    vs = {"char": C_VALUES, "wchar": W_VALUES, "ld": list(range(len(LD_EXPRS))), "pc": P_OFFSETS, "pi": P_OFFSETS,
-          "ps": P_OFFSETS, "union": list(range(len(U_VALUES)))}.get(k)
+    vs = {"char": C_VALUES, "wchar": W_ARGS.get(t), "ld": list(range(len(LD_EXPRS))), "pc": P_OFFSETS, "pi": P_OFFSETS,
+          "ps": P_OFFSETS, "pv": P_OFFSETS, "ppc": P_OFFSETS, "fp": [None, 0, 1],
+          "union": list(range(len(U_VALUES)))}.get(k)
     if vs is None:
         vs = F_VALUES if t == "float" else D_VALUES if t == "double" else list(range(len(S_VALUES[t])))
     return vs[:4] if small else vs
+
+
+def arg_unconvertible(t, mv):
+    """The C value has no Python counterpart: convert_to_object() fails before the Python function can be called."""
+    k = kind_of(t)
+    if k == "wchar":
+        return model()["size"][t] == 4 and not 0 <= mv <= 0x10ffff
+    return k == "bool" and mv > 1
 
 
 def c_float(v, suffix=""):
@@ -182,8 +210,10 @@ def c_literal(t, mv):
         return c_float(mv, "f" if t == "float" else "")
     if k == "ld":
         return LD_EXPRS[mv]
-    if k in ("pc", "pi", "ps"):
+    if k in PTRK:
         return "(%s)0" % t if mv is None else "(%s)(c14_static + %d)" % (t, mv)
+    if k == "fp":
+        return "(fp_t)0" if mv is None else "c14_fn%d" % mv
     if k == "struct":
         return c_struct(t, S_VALUES[t][mv])
     if k == "union":
@@ -214,8 +244,10 @@ def seen_expected(t, mv, L):
         return ("float", _dbits(_as_float32(mv) if t == "float" else mv))
     if k == "ld":
         return ("ld", model()["ld"][mv])
-    if k in ("pc", "pi", "ps"):
-        return ("ptr", t, 0 if mv is None else L.static + mv)
+    if k in PTRK:
+        return ("ptr", CNAME.get(t, t), 0 if mv is None else L.static + mv)
+    if k == "fp":
+        return ("ptr", CNAME[t], 0 if mv is None else L.fnaddr[mv])
     if k == "union":
         return ("union", U_VALUES[mv])
     return struct_shape(t, S_VALUES[t][mv])
@@ -252,7 +284,7 @@ def capture(ffi, t, x):
         return ("str", tuple(ord(ch) for ch in x)) if type(x) is str else ("?", repr(x))
     if k == "ld":
         return ("ld", bytes(ffi.buffer(ffi.new("long double *", x)))[:10])
-    if k in ("pc", "pi", "ps"):
+    if k in PTRK or k == "fp":
         return ("ptr", ffi.typeof(x).cname, int(ffi.cast("uintptr_t", x)))
     if k == "union":
         return ("union", bytes(ffi.buffer(ffi.addressof(x))))
@@ -271,13 +303,15 @@ def encode(t, mv, L):
     if k == "char":
         return [(0, mv)]
     if k == "wchar":
-        return [(0, mv.to_bytes(4, "little", signed=True))]
+        return [(0, mv.to_bytes(m["size"][t], "little", signed=m["range"][t][0] < 0))]
     if k == "float":
         return [(0, struct.pack("<f", _as_float32(mv)) if t == "float" else struct.pack("<d", mv))]
     if k == "ld":
         return [(0, bytes(ctypes.c_longdouble(mv))[:10])]
-    if k in ("pc", "pi", "ps"):
+    if k in PTRK:
         return [(0, (0 if mv is None else L.static + mv).to_bytes(8, "little"))]
+    if k == "fp":
+        return [(0, (0 if mv is None else L.fnaddr[mv]).to_bytes(8, "little"))]
     if k == "union":
         return [(0, mv)]
     segs = []
@@ -306,7 +340,7 @@ def zero_value(t):
         return 0
     if k in ("float", "ld"):
         return 0.0
-    if k in ("pc", "pi", "ps"):
+    if k in PTRK or k == "fp":
         return None
     if k == "union":
         return b"\x00" * 8
@@ -341,6 +375,29 @@ def struct_init(t, mv, form):
     return tuple(out)
 
 
+def bad_initializer(t):
+    """An initialiser of the by-value struct/union t whose LAST item cannot be converted: the conversion fails after
+    the result buffer has been cleared and the leading fields have been written."""
+    if kind_of(t) == "union":
+        return ("x",)
+    tup = list(struct_init(t, S_VALUES[t][2], "tuple"))
+    tup[-1] = "x"
+    return tuple(tup)
+
+
+def onerror_bad_spec(t, how):
+    """What the onerror handler returns in the configurations onerror-badvalue / onerror-badinit."""
+    if how == "onerror-badinit":
+        return ("py", bad_initializer(t))
+    if kind_of(t) in ("struct", "union"):
+        return ("py", 5)
+    for lab, spec, mv in ret_alphabet(t):
+        if mv is UNCONV and lab in ("int:above", "py:bytes:len2", "py:str:len2", "py:int:huge", "cdata:other-ptr",
+                                    "cdata:other-fnptr", "py:int"):
+            return spec
+    raise InfraError("no unconvertible value for %s" % t)
+
+
 def ret_alphabet(t):
     k = kind_of(t)
     m = model()
@@ -355,14 +412,37 @@ def ret_alphabet(t):
                        ("int:below" if v < lo else "int:above", ("py", v), UNCONV))
         out += [("py:bool", ("py", True), 1), ("py:float", ("py", 1.5), UNCONV), ("py:float", ("py", 1.0), UNCONV),
                 ("py:bytes", ("py", b"x"), UNCONV), ("cdata:double", ("cast", "double", 1.0), UNCONV)]
+        # result objects that are not Python ints: a cdata of the result type itself, a cdata of a wider integer type
+        # (in and out of range: small signed results are converted twice, convert_from_object_fficallback), objects
+        # implementing the integer protocol (both __int__ and __index__, so that every reading of "int() works" agrees)
+        for v in sorted({lo, hi, 1}):
+            out.append(("cdata:same", ("cast", t, v), v))
+        wide = "long long" if lo < 0 else "unsigned long long"
+        wlo, whi = m["range"][wide]
+        out.append(("cdata:wider", ("cast", wide, hi), hi))
+        if hi + 1 <= whi:
+            out.append(("cdata:wider:above", ("cast", wide, hi + 1), UNCONV))
+        if wlo <= lo - 1:
+            out.append(("cdata:wider:below", ("cast", wide, lo - 1), UNCONV))
+        out += [("obj:int+index", ("obj", "num", hi), hi), ("obj:int+index", ("obj", "num", lo), lo),
+                ("obj:int+index:above", ("obj", "num", hi + 1), UNCONV), ("obj:float", ("obj", "float", 1.0), UNCONV)]
+        if t.startswith("enum "):
+            out.append(("py:str:enumerator", ("py", "E1B" if t == "enum e1" else "E2B"), UNCONV))
     elif k == "char":
         out += [("py:bytes", ("py", bytes([v])), bytes([v])) for v in C_VALUES]
         out += [("py:bytes:len0", ("py", b""), UNCONV), ("py:bytes:len2", ("py", b"ab"), UNCONV), ("py:int", ("py", 65), UNCONV),
                 ("py:float", ("py", 1.5), UNCONV)]
+        out += [("cdata:same", ("cast", "char", v), bytes([v])) for v in (0, 65, 255)]
+        out += [("cdata:signed char", ("cast", "signed char", 65), UNCONV)]
     elif k == "wchar":
-        out += [("py:str", ("py", chr(v)), v) for v in W_VALUES]
+        hi = m["range"][t][1]
+        out += [("py:str", ("py", chr(v)), v) for v in W_VALUES + [0xd800, 0xdfff] if v <= hi]
         out += [("py:str:len0", ("py", ""), UNCONV), ("py:str:len2", ("py", "ab"), UNCONV), ("py:int", ("py", 65), UNCONV),
                 ("py:bytes", ("py", b"a"), UNCONV)]
+        if hi < 0x10000:
+            out.append(("py:str:nonbmp", ("py", chr(0x10000)), UNCONV))     # needs two char16_t
+        out += [("cdata:same", ("cast", t, v), v) for v in (0, 0x100, 0xffff)]
+        out += [("cdata:char", ("cast", "char", 65), UNCONV)]
     elif k in ("float", "ld"):
         vs = F_VALUES if t == "float" else D_VALUES
         out += [("py:float", ("py", v), v) for v in vs + [1e39, -1e39, 1e-46]]
@@ -372,15 +452,27 @@ def ret_alphabet(t):
         if k == "ld":
             out += [("cdata:long double", ("cast", "long double", 1.25), 1.25)]
         out += [("cdata:double", ("cast", "double", -7.5), -7.5)]
-    elif k in ("pc", "pi", "ps"):
+        out += [("cdata:float", ("cast", "float", 2.5), 2.5), ("cdata:int", ("cast", "int", 1), UNCONV),
+                ("obj:float", ("obj", "float", -3.5), -3.5)]
+    elif k in PTRK:
         out += [("cdata:ptr", ("ptr", t, o), o) for o in P_OFFSETS[1:]]
         out += [("cdata:NULL", ("null",), None), ("cdata:void*", ("ptr", "void *", 8), 8),
                 ("cdata:typed-NULL", ("cast", t, 0), None),
-                ("cdata:other-ptr", ("ptr", "short *", 8), UNCONV), ("py:int", ("py", 0), UNCONV),
+                # any pointer converts to 'void *'; a pointer to another type converts to nothing else
+                ("cdata:other-ptr", ("ptr", "short *", 8), 8 if k == "pv" else UNCONV), ("py:int", ("py", 0), UNCONV),
                 ("py:bytes", ("py", b"x"), UNCONV), ("cdata:int", ("cast", "int", 0), UNCONV)]
+        if k == "ppc":
+            out.append(("cdata:other-ptr", ("ptr", "char *", 8), UNCONV))
+    elif k == "fp":
+        out += [("cdata:fnptr", ("fn", i), i) for i in (0, 1)]
+        out += [("cdata:NULL", ("null",), None), ("cdata:typed-NULL", ("cast", "fp_t", 0), None),
+                ("cdata:other-fnptr", ("fncast", "long(*)(long)", 0), UNCONV), ("py:int", ("py", 0), UNCONV),
+                ("py:function", ("pyfn",), UNCONV), ("cdata:int", ("cast", "int", 0), UNCONV),
+                ("cdata:data-ptr", ("ptr", "char *", 8), UNCONV)]
     elif k == "union":
         out += [("cdata:union", ("union", i), U_VALUES[i]) for i in range(len(U_VALUES))]
-        out += [("py:int", ("py", 5), UNCONV), ("cdata:struct", ("struct", "struct s1", {"a": 1}), UNCONV)]
+        out += [("py:int", ("py", 5), UNCONV), ("cdata:struct", ("struct", "struct s1", {"a": 1}), UNCONV),
+                ("init:bad-tail", ("py", bad_initializer(t)), UNCONV)]
     else:
         for mv in S_VALUES[t]:
             out.append(("cdata:struct", ("struct", t, mv), mv))
@@ -399,7 +491,8 @@ def ret_alphabet(t):
         other = "struct s1" if t != "struct s1" else "struct s3"
         out += [("cdata:other-struct", ("struct", other, S_VALUES[other][0]), UNCONV), ("py:int", ("py", 5), UNCONV),
                 ("init:too-many", ("py", tuple(range(9))), UNCONV), ("init:bad-key", ("py", {"zz": 1}), UNCONV),
-                ("cdata:ptr", ("structptr", t, S_VALUES[t][0]), UNCONV)]
+                ("cdata:ptr", ("structptr", t, S_VALUES[t][0]), UNCONV),
+                ("init:bad-tail", ("py", bad_initializer(t)), UNCONV)]
     if k != "void":
         out += [(lab, sp, UNCONV) for lab, sp in WRONG
                 if not (k in ("struct", "union") and lab in ("py:list", "py:dict"))     # those are initialisers
@@ -418,11 +511,13 @@ def error_values(t):
     if k == "char":
         return b"E", b"V"
     if k == "wchar":
-        return ord("E"), 0x10ffff
+        return ord("E"), min(0x10ffff, model()["range"][t][1])
     if k in ("float", "ld"):
         return -42.5, 17.25
-    if k in ("pc", "pi", "ps"):
+    if k in PTRK:
         return 8, 16
+    if k == "fp":
+        return 0, 1
     if k == "union":
         return U_VALUES[1], U_VALUES[0]
     if k == "struct":
@@ -441,11 +536,26 @@ def spec_for_model(t, mv):
         return ("py", chr(mv))
     if k in ("float", "ld"):
         return ("py", mv)
-    if k in ("pc", "pi", "ps"):
+    if k in PTRK:
         return ("null",) if mv is None else ("ptr", t, mv)
+    if k == "fp":
+        return ("null",) if mv is None else ("fn", mv)
     if k == "union":
         return ("union", U_VALUES.index(mv))
     return ("struct", t, mv)
+
+
+class _Num(object):
+    """An integer-like object: int() works on it whichever protocol is consulted."""
+
+    def __init__(self, v):
+        self.v = v
+
+    def __int__(self):
+        return self.v
+
+    def __index__(self):
+        return self.v
 
 
 def realize(spec, ffi, L, keep):
@@ -458,6 +568,14 @@ def realize(spec, ffi, L, keep):
         return ffi.NULL
     if k == "ptr":
         return ffi.cast(spec[1], L.static + spec[2])
+    if k == "fn":
+        return ffi.cast("fp_t", L.fnaddr[spec[1]])
+    if k == "fncast":
+        return ffi.cast(spec[1], L.fnaddr[spec[2]])
+    if k == "pyfn":
+        return c13._a_python_function
+    if k == "obj":
+        return _Num(spec[2]) if spec[1] == "num" else c13._WithFloat(spec[2])
     if k == "union":
         p = ffi.new("union u1 *")
         ffi.buffer(p)[:] = U_VALUES[spec[1]]
@@ -474,7 +592,7 @@ def realize(spec, ffi, L, keep):
 # generated module
 
 def tname(t):
-    return t.replace(" *", "_p").replace(" ", "_")
+    return t.replace(" **", "_pp").replace(" *", "_p").replace(" ", "_")
 
 
 def sig_decl(sg, name, ptr=False):
@@ -490,8 +608,10 @@ def module_source(sigs, small_types):
             if t not in types:
                 types.append(t)
     cdef = [c13.STRUCT_DECLS, UNION_DECL]
-    src = ["#include <string.h>\n#include <wchar.h>\n", c13.STRUCT_DECLS, UNION_DECL,
+    src = ["#include <string.h>\n#include <stdint.h>\n#include <wchar.h>\n#include <uchar.h>\n#include <sys/types.h>\n",
+           c13.STRUCT_DECLS, UNION_DECL,
            "char c14_static[64];\nunsigned char c14_res[64];\nint c14_res_len = -1;\n"
+           "int c14_fn0(int x) { return x + 1; }\nint c14_fn1(int x) { return x * 2; }\n"
            "static void c14_store(const void *p, int n) { memset(c14_res, 0xEE, sizeof c14_res); "
            "if (n > 0) memcpy(c14_res, p, n); c14_res_len = n; }\n"]
     init = []
@@ -503,24 +623,29 @@ def module_source(sigs, small_types):
                 src.append("static union u1 %s[%d];\n" % (nm, len(vs)))
                 for i, mv in enumerate(vs):
                     init.append("memcpy(&%s[%d], \"%s\", 8);" % (nm, i, "".join("\\x%02x" % b for b in U_VALUES[mv])))
-            elif kind_of(t) in ("pc", "pi", "ps"):
+            elif kind_of(t) in PTRK or kind_of(t) == "fp":
                 src.append("static %s %s[%d];\n" % (t, nm, len(vs)))
                 for i, mv in enumerate(vs):
                     init.append("%s[%d] = %s;" % (nm, i, c_literal(t, mv)))
+            elif kind_of(t) == "bool":
+                # stored as bytes: the table also holds _Bool objects whose byte is neither 0 nor 1
+                src.append("static _Bool %s[%d];\n" % (nm, len(vs)))
+                for i, mv in enumerate(vs):
+                    init.append("memcpy(&%s[%d], \"\\x%02x\", 1);" % (nm, i, mv))
             else:
                 src.append("static %s %s[%d] = { %s };\n" % (t.replace(" *", " *"), nm, len(vs),
                                                               ", ".join(c_literal(t, mv) for mv in vs)))
     src.append("void c14_init(void) { %s }\n" % " ".join(init))
     for sg in sigs:
         fam, k, R, A = sg
-        cdef.append('extern "Python" %s;\n' % sig_decl(sg, "ep_%d" % k))
-        src.append("static %s;\n" % sig_decl(sg, "ep_%d" % k))
-        small = fam != "u"
-        idx, div = [], 1
+        plus_c = python_plus_c(sg)         # every 8th trampoline is declared extern "Python+C" (not static)
+        cdef.append('extern "Python%s" %s;\n' % ("+C" if plus_c else "", sig_decl(sg, "ep_%d" % k)))
+        src.append("%s%s;\n" % ("" if plus_c else "static ", sig_decl(sg, "ep_%d" % k)))
+        small = is_small(fam)
+        idx = []
         for j, t in enumerate(A):
             n = len(arg_values(t, small))
-            idx.append("c14_%s_%s[(i / %d) %% %d]" % ("s" if small else "a", tname(t), div, n))
-            div *= n
+            idx.append("c14_%s_%s[%s]" % ("s" if small else "a", tname(t), value_index_c(sg, j)))
         call = "f(%s)" % ", ".join(idx)
         body = "%s = fn ? (%s)fn : ep_%d;\n" % (sig_decl(sg, "f", ptr=True), sig_decl(sg, "", ptr=True).replace("(*)", "(*)"), k)
         if R == "void":
@@ -531,9 +656,65 @@ def module_source(sigs, small_types):
     return "".join(cdef), "".join(src)
 
 
+def python_plus_c(sg):
+    return sg[1] % 8 == 5
+
+
+def is_small(fam):
+    """Unary families use the full argument tables, the others the products of the reduced ones."""
+    return fam not in ("u", "x")
+
+
+def value_index(sg, i, j):
+    """Index into the table of argument j for call number i."""
+    fam, _k, _R, A = sg
+    small = is_small(fam)
+    if fam == "w":                  # wide signatures: 4 calls, argument j takes its values in rotation
+        return (i + j) % len(arg_values(A[j], small))
+    for t in A[:j]:
+        i //= len(arg_values(t, small))
+    return i % len(arg_values(A[j], small))
+
+
+def value_index_c(sg, j):
+    fam, _k, _R, A = sg
+    small = is_small(fam)
+    n = len(arg_values(A[j], small))
+    if fam == "w":
+        return "(i + %d) %% %d" % (j, n)
+    div = 1
+    for t in A[:j]:
+        div *= len(arg_values(t, small))
+    return "(i / %d) %% %d" % (div, n)
+
+
+# error configurations.  onerror-badvalue: the handler returns a value that cannot be converted to the result type;
+# onerror-badinit (struct / union results): it returns an initialiser whose last item cannot be converted.  The
+# documentation says "if it simply returns None -- or if onerror itself fails -- then the value of error will be used".
 CONFIGS = ["none", "error", "onerror-none", "onerror-none+error", "onerror-value+error", "onerror-raises",
-           "onerror-raises+error"]
-MECHS = ["callback", "callback-inline", "extern-python"]
+           "onerror-raises+error", "onerror-badvalue", "onerror-badvalue+error", "onerror-badinit", "onerror-badinit+error"]
+# mechanisms: how the Python function is attached
+#   callback                ffi.callback(cdecl, fn, **kw) of the compiled module's FFI, cdecl = "R (*)(A)"
+#   callback-decorator      ffi.callback(cdecl, **kw)(fn) of the compiled module's FFI, cdecl = function type "R (A)"
+#   callback-inline         ffi.callback(cdecl, **kw)(fn) of an in-line FFI, cdecl = "R (*)(A)"
+#   callback-inline-direct  ffi.callback(cdecl, fn, **kw) of an in-line FFI, cdecl = "R (A)"
+#   extern-python           ffi.def_extern(name=..., **kw)(fn)
+#   extern-python-byname    ffi.def_extern(**kw)(fn) with fn.__name__ == the declared name
+#   *-badrepr               the callable is an object whose __repr__ raises (the unraisable message is built with %R)
+MECHS = ["callback", "callback-inline", "extern-python", "callback-decorator", "callback-inline-direct",
+         "extern-python-byname", "callback-badrepr", "extern-python-badrepr"]
+QUICK_CONFIGS = {      # quick tier: the spellings share the C entry points of "callback" / "extern-python"
+    "callback-inline": ("none", "onerror-value+error"),
+    "callback-decorator": ("none", "onerror-value+error"),
+    "callback-inline-direct": ("none", "onerror-value+error"),
+    "extern-python-byname": ("none", "onerror-value+error"),
+    "callback-badrepr": ("none", "error", "onerror-raises"),            # where the message with %R is built
+    "extern-python-badrepr": ("none", "error", "onerror-raises"),
+}
+# what the Python body raises: an ordinary Exception, BaseExceptions that are not Exceptions, an exception whose
+# class cannot be instantiated (the raise statement fails with another exception), one whose __str__/__repr__ raise
+RAISES = ["raise", "raise:KeyboardInterrupt", "raise:SystemExit", "raise:GeneratorExit", "raise:StopIteration",
+          "raise:BadInit", "raise:BadStr"]
 
 
 class BodyError(Exception):
@@ -542,6 +723,46 @@ class BodyError(Exception):
 
 class HandlerError(Exception):
     pass
+
+
+class BadInit(Exception):
+    def __init__(self, *args):
+        raise LookupError("BadInit cannot be instantiated")
+
+
+class BadStr(Exception):
+    def __str__(self):
+        raise ArithmeticError("BadStr.__str__")
+
+    __repr__ = __str__
+
+
+class BadReprCallable(object):
+    """A callable whose repr() fails."""
+
+    def __init__(self, fn):
+        self.fn = fn
+
+    def __call__(self, *args):
+        return self.fn(*args)
+
+    def __repr__(self):
+        raise ArithmeticError("BadReprCallable.__repr__")
+
+
+def raise_for(mode):
+    """(exception to raise, name of the exception type the onerror handler must be given)."""
+    if mode in ("raise", "nest"):
+        return BodyError("boom"), "BodyError"
+    name = mode.split(":")[1]
+    if name == "BadInit":
+        return BadInit, "LookupError"
+    if name == "BadStr":
+        return BadStr("x"), "BadStr"
+    if name == "SystemExit":
+        return SystemExit(3), name
+    return {"KeyboardInterrupt": KeyboardInterrupt, "GeneratorExit": GeneratorExit,
+            "StopIteration": StopIteration}[name](), name
 
 
 def build_module(item):
@@ -573,7 +794,7 @@ def inline_ffi():
         import cffi
         _INL = cffi.FFI()
         _INL.cdef(c13.STRUCT_DECLS + UNION_DECL)
-        _INL.typeof("struct s4 (*)(union u1)")
+        _INL.typeof("struct s4 (*)(union u1, fp_t, enum e1, enum e2, u16_t, i64_t)")
     return _INL
 
 
@@ -596,6 +817,7 @@ class Lib(object):
         self.cd = ctypes.CDLL(so)
         self.cd.c14_init()
         self.static = ctypes.addressof(ctypes.c_char.in_dll(self.cd, "c14_static"))
+        self.fnaddr = [ctypes.cast(getattr(self.cd, "c14_fn%d" % i), ctypes.c_void_p).value for i in (0, 1)]
         self.res = (ctypes.c_ubyte * 64).in_dll(self.cd, "c14_res")
         self.res_len = ctypes.c_int.in_dll(self.cd, "c14_res_len")
         self.callers = {}
@@ -606,7 +828,7 @@ class Lib(object):
             self.callers[sg[1]] = f
 
     def ffi_of(self, mech):
-        return self.inl if mech == "callback-inline" else self.mod.ffi
+        return self.inl if mech.startswith("callback-inline") else self.mod.ffi
 
 
 HOOK_LOG = []
@@ -625,10 +847,14 @@ class Scenario(object):
         self.seen = []
         self.onerror_calls = []
         self.onerror_ret = None
+        self.depth = 0
+        self.addr = 0
+        self.inner = None               # nested invocation: (argument index, raw bytes received, escaped exception)
+        self.inner_i = 0
 
 
 def supported(sg, mech):
-    if mech == "extern-python":
+    if mech.startswith("extern-python"):
         return True
     return all(kind_of(t) != "union" for t in list(sg[3]) + [sg[2]])
 
@@ -641,8 +867,20 @@ def install(L, sg, mech, cfg, scn):
 
     def body(*args):
         scn.seen.append(tuple(capture(ffi, t, x) for t, x in zip(A, args)) if len(args) == len(A) else ("arity", len(args)))
-        if scn.mode == "raise":
-            raise BodyError("boom")
+        if scn.mode == "nest" and scn.depth == 0:
+            # re-entrant invocation: the C caller is run again from inside the Python function; the inner
+            # invocation raises, the outer one must still deliver its own result
+            scn.depth = 1
+            esc = None
+            try:
+                L.callers[k](scn.addr or None, scn.inner_i)
+            except BaseException as e:              # noqa: B902
+                esc = "%s: %s" % (type(e).__name__, e)
+            scn.depth = 0
+            scn.inner = (scn.inner_i, bytes(L.res[:max(L.res_len.value, 0)]), esc)
+            return scn.ret
+        if scn.mode != "ret":
+            raise raise_for(scn.mode)[0]
         return scn.ret
 
     kw = {}
@@ -657,22 +895,36 @@ def install(L, sg, mech, cfg, scn):
             scn.onerror_calls.append((getattr(exc, "__name__", repr(exc)), type(val).__name__, tb is not None))
             if how == "onerror-raises":
                 raise HandlerError("handler")
-            if how == "onerror-value":
+            if how in ("onerror-value", "onerror-badvalue", "onerror-badinit"):
                 return scn.onerror_ret
             return None
         kw["onerror"] = handler
         if how == "onerror-value":
             scn.onerror_ret = realize(spec_for_model(R, v), ffi, L, keep)
-    if mech == "extern-python":
-        L.mod.ffi.def_extern(name="ep_%d" % k, **kw)(body)
+        elif how in ("onerror-badvalue", "onerror-badinit"):
+            scn.onerror_ret = realize(onerror_bad_spec(R, how), ffi, L, keep)
+    fn = BadReprCallable(body) if mech.endswith("-badrepr") else body
+    scn.addr = 0
+    if mech.startswith("extern-python"):
+        if mech == "extern-python-byname":
+            body.__name__ = "ep_%d" % k
+            L.mod.ffi.def_extern(**kw)(body)
+        else:
+            L.mod.ffi.def_extern(name="ep_%d" % k, **kw)(fn)
         return 0, (keep, body)
-    cdecl = sig_decl(sg, "", ptr=True)
-    if mech == "callback":
-        cb = ffi.callback(cdecl, body, **kw)
+    if mech in ("callback", "callback-badrepr"):
+        cb = ffi.callback(sig_decl(sg, "", ptr=True), fn, **kw)
+    elif mech == "callback-inline":
+        cb = ffi.callback(sig_decl(sg, "", ptr=True), **kw)(body)       # decorator form of the pure-Python FFI
+    elif mech == "callback-decorator":
+        cb = ffi.callback(sig_decl(sg, ""), **kw)(body)                 # decorator form, cdecl is a function type
+    elif mech == "callback-inline-direct":
+        cb = ffi.callback(sig_decl(sg, ""), body, **kw)
     else:
-        cb = ffi.callback(cdecl, **kw)(body)           # decorator form of the pure-Python FFI
+        raise InfraError("mechanism %r" % mech)
     keep.append(cb)
-    return int(ffi.cast("uintptr_t", cb)), (keep, body)
+    scn.addr = int(ffi.cast("uintptr_t", cb))
+    return scn.addr, (keep, body)
 
 
 def expected_result(sg, cfg, convertible_mv, is_error):
@@ -689,7 +941,9 @@ def expected_result(sg, cfg, convertible_mv, is_error):
 
 
 def arg_index_count(sg):
-    small = sg[0] != "u"
+    if sg[0] == "w":
+        return 4
+    small = is_small(sg[0])
     n = 1
     for t in sg[3]:
         n *= len(arg_values(t, small))
@@ -697,13 +951,17 @@ def arg_index_count(sg):
 
 
 def args_expected(L, sg, i):
-    small = sg[0] != "u"
-    out = []
-    for t in sg[3]:
-        vs = arg_values(t, small)
-        out.append(seen_expected(t, vs[i % len(vs)], L))
-        i //= len(vs)
-    return tuple(out)
+    """(what the Python function must see, positions of arguments that have no Python counterpart)."""
+    small = is_small(sg[0])
+    out, unconv = [], []
+    for j, t in enumerate(sg[3]):
+        mv = arg_values(t, small)[value_index(sg, i, j)]
+        if arg_unconvertible(t, mv):
+            unconv.append(j)
+            out.append(None)
+        else:
+            out.append(seen_expected(t, mv, L))
+    return tuple(out), unconv
 
 
 def cases_of(sg, mech, cfg, tier):
@@ -713,11 +971,13 @@ def cases_of(sg, mech, cfg, tier):
     rets = ret_alphabet(R)
     ok = [j for j, (_l, _s, mv) in enumerate(rets) if mv is not UNCONV and _l != "init:partial"]
     out = []
-    if tier == "thorough" and fam == "u" and cfg in ("none", "error"):
+    if tier == "thorough" and fam in ("u", "x") and cfg in ("none", "error"):
         for i in range(nargs):
             for j in range(len(rets)):
                 out.append((i, "ret", j))
-            out.append((i, "raise", None))
+            for md in RAISES:
+                out.append((i, md, None))
+            out.append((i, "nest", ok[i % len(ok)]))
         return out
     if cfg == "none":
         for i in range(nargs):              # argument sweep (independent of the error configuration)
@@ -740,6 +1000,10 @@ def cases_of(sg, mech, cfg, tier):
                 out.append((j % nargs, "ret", j))
     out.append((0, "raise", None))
     out.append((nargs - 1, "raise", None))
+    for n, md in enumerate(RAISES[1:]):
+        out.append(((n + 1) % nargs, md, None))
+    out.append((0, "nest", ok[0]))
+    out.append((nargs - 1, "nest", ok[-1]))
     return out
 
 
@@ -752,11 +1016,18 @@ def check_case(L, sg, mech, cfg, addr, scn, case, rets, keep):
     scn.onerror_calls.clear()
     del HOOK_LOG[:]
     scn.mode = mode
-    if mode == "ret":
+    scn.inner = None
+    scn.depth = 0
+    if mode in ("ret", "nest"):
         label, spec, mv = rets[j]
         scn.ret = realize(spec, ffi, L, keep)
+        if mode == "nest":
+            label = "nest"
+            n_idx = arg_index_count(sg)
+            scn.inner_i = next((c for c in ((i + d) % n_idx for d in range(1, n_idx + 1))
+                                if not args_expected(L, sg, c)[1]), i)
     else:
-        label, mv = "raise", UNCONV
+        label, mv = mode, UNCONV
         scn.ret = None
     is_error = mv is UNCONV
     bad = []
@@ -767,8 +1038,43 @@ def check_case(L, sg, mech, cfg, addr, scn, case, rets, keep):
         escaped = "%s: %s" % (type(e).__name__, e)
     if escaped is not None:
         bad.append(("exception-escaped", escaped))
-    want_seen = args_expected(L, sg, i)
-    if len(scn.seen) != 1:
+    want_seen, unconv = args_expected(L, sg, i)
+    uncallable = False
+    inner_error = 0
+    if mode == "nest" and not unconv:
+        # outer invocation, then the inner one (which raises) from inside the Python function
+        want_inner, unconv_inner = args_expected(L, sg, scn.inner_i)
+        inner_error = 1
+        if scn.inner is None:
+            bad.append(("nested-call-not-made", len(scn.seen)))
+        else:
+            if scn.inner[2] is not None:
+                bad.append(("exception-escaped", "inner: " + scn.inner[2]))
+            want = expected_result(sg, cfg, UNCONV, True)
+            if R != "void":
+                for off, b in encode(R, want, L):
+                    if scn.inner[1][off:off + len(b)] != b:
+                        bad.append(("result-bytes", {"nested": "inner", "received": scn.inner[1].hex(),
+                                                     "expected_at_%d" % off: b.hex(), "expected_model": repr(want)[:200]}))
+                        break
+            if len(scn.seen) != 2:
+                bad.append(("python-function-invocations", len(scn.seen)))
+            elif scn.seen[0] != want_seen or scn.seen[1] != want_inner:
+                bad.append(("arguments-seen", {"seen": repr(scn.seen)[:300], "passed": repr((want_seen, want_inner))[:300]}))
+    elif unconv:
+        # An argument has no Python counterpart (a wchar_t/char32_t that is not a code point, a _Bool byte > 1):
+        # the statement's "passes exactly its argument values" cannot hold.  What is judged: nothing escapes, and
+        # if the Python function is not invoked the call is an error case like any other (error value, one report).
+        # If an implementation invokes the function nevertheless, the other arguments must be exact.
+        if len(scn.seen) == 0:
+            uncallable = is_error = True
+        elif len(scn.seen) != 1:
+            bad.append(("python-function-invocations", len(scn.seen)))
+        elif any(a != b for j2, (a, b) in enumerate(zip(scn.seen[0], want_seen)) if j2 not in unconv):
+            bad.append(("arguments-seen", {"seen": repr(scn.seen[0])[:300], "passed": repr(want_seen)[:300]}))
+        if mode == "nest" and scn.inner is not None:
+            inner_error = 1
+    elif len(scn.seen) != 1:
         bad.append(("python-function-invocations", len(scn.seen)))
     elif scn.seen[0] != want_seen:
         bad.append(("arguments-seen", {"seen": repr(scn.seen[0])[:300], "passed": repr(want_seen)[:300]}))
@@ -785,22 +1091,26 @@ def check_case(L, sg, mech, cfg, addr, scn, case, rets, keep):
                 break
     has_onerror = cfg.startswith("onerror")
     nh = len(HOOK_LOG)
-    if not is_error:
+    nerr = inner_error + (1 if is_error else 0)         # error cases in this execution (nested: inner and/or outer)
+    if not nerr:
         if nh:
             bad.append(("hook-called-without-error", HOOK_LOG[:2]))
         if scn.onerror_calls:
             bad.append(("onerror-called-without-error", scn.onerror_calls[:2]))
     elif not has_onerror:
-        if nh != 1:
+        if nh != nerr:
             bad.append(("hook-calls-in-error-case", nh))
     else:
-        if len(scn.onerror_calls) != 1:
+        if len(scn.onerror_calls) != nerr:
             bad.append(("onerror-calls-in-error-case", len(scn.onerror_calls)))
-        elif mode == "raise" and scn.onerror_calls[0][0] != "BodyError":
+        elif mode != "ret" and not uncallable and scn.onerror_calls[0][0] != raise_for(mode)[1]:
             bad.append(("onerror-exception-type", scn.onerror_calls[0]))
-        if not cfg.startswith("onerror-raises") and nh:
+        how = cfg.split("+")[0]
+        if how in ("onerror-none", "onerror-value") and nh:
             bad.append(("hook-called-although-onerror-handled", HOOK_LOG[:2]))
-    return bad, label, is_error
+        # onerror raised, or returned something unconvertible ("onerror itself fails"): nothing may escape (judged
+        # above); how often the hook fires for the pair of exceptions is not specified
+    return bad, label, (is_error or inner_error > 0)
 
 
 def work(item):
@@ -820,11 +1130,13 @@ def work(item):
                 res["skipped_union_libffi"] += 1
                 continue
             for cfg in CONFIGS:
-                if tier == "quick" and mech == "callback-inline" and cfg not in ("none", "onerror-value+error"):
+                if tier == "quick" and cfg not in QUICK_CONFIGS.get(mech, CONFIGS):
                     continue                 # same C entry point as "callback"; only the Python wrapper differs
                 if R == "void" and "error" in cfg.replace("onerror", ""):
                     continue                 # error= is not allowed for void results
                 if R == "void" and cfg.startswith("onerror-value"):
+                    continue
+                if cfg.startswith("onerror-badinit") and kind_of(R) not in ("struct", "union"):
                     continue
                 scn = Scenario()
                 addr, keepalive = install(L, sg, mech, cfg, scn)
@@ -833,12 +1145,18 @@ def work(item):
                 for case in cases_of(sg, mech, cfg, tier):
                     bad, label, is_error = check_case(L, sg, mech, cfg, addr, scn, case, rets, keep)
                     res["cases"] += 1
-                    if is_error or case[1] == "raise":
+                    if is_error:
                         res["nontrivial"] += 1
                     res["classes"]["mech/" + mech] += 1
                     res["classes"]["cfg/" + cfg] += 1
-                    res["classes"]["body/" + ("raise" if case[1] == "raise" else "unconvertible" if is_error else "ok")] += 1
-                    res["classes"]["ret/" + label.split(":")[0]] += 1
+                    if case[1] == "ret":
+                        res["classes"]["body/" + ("argument-unconvertible" if is_error and rets[case[2]][2] is not UNCONV
+                                                  else "unconvertible" if is_error else "ok")] += 1
+                        res["classes"]["ret/" + label.split(":")[0]] += 1
+                    else:
+                        res["classes"]["body/" + case[1]] += 1
+                    if fam in ("x", "w"):
+                        res["classes"]["family/" + {"x": "extended-types", "w": "wide"}[fam]] += 1
                     if len(keep) > 64:
                         del keep[:]
                     if bad:
@@ -849,6 +1167,10 @@ def work(item):
                                        "body": "-"}
                             else:
                                 sgn = {"kind": kind, "mech": mech, "args": "-", "cfg": cfg, "ret": R, "body": label}
+                            if cfg.startswith("onerror-bad") and kind == "result-bytes":
+                                # onerror returned something unconvertible: own root cause, own signature
+                                sgn["onerror_returns"] = "unconvertible"
+                                sgn["result_kind"] = kind_of(R)
                             ent = res["bad"].setdefault(repr(sorted(sgn.items())), [sgn, 0, []])
                             ent[1] += 1
                             if len(ent[2]) < 2:
@@ -884,6 +1206,22 @@ def signatures(tier):
     add("m", "double", ["signed char", "unsigned short", "int *", "struct s3", "double", "long long"])
     add("m", "struct s4", ["float", "char *", "struct s1", "unsigned long", "_Bool", "wchar_t"])
     add("m", "long double", ["long double", "struct s4", "union u1", "float", "struct s2", "long double"])
+    # the extended types: as argument and result together, as argument only, as result only
+    for X in X_TYPES:
+        add("x", X, [X])
+        add("x", "long long", [X])
+        add("x", X, ["long long"])
+    # wide signatures: more arguments than argument registers (6 INTEGER, 8 SSE on x86-64), so that the libffi closure
+    # and the extern "Python" trampoline (8-byte slots) handle stack-passed arguments, structs passed in memory after
+    # the registers are used up and a long double beyond slot 6
+    add("w", "double", ["signed char", "unsigned short", "int", "unsigned int", "long", "unsigned long", "long long",
+                        "short"] + ["double", "float"] * 5)
+    add("w", "struct s3", ["long"] * 6 + ["double"] * 8 + ["struct s3", "struct s4", "long double", "struct s2",
+                                                          "signed char", "struct s1", "float", "int *"])
+    add("w", "long double", ["long double", "int", "float", "_Bool", "char", "wchar_t", "long double", "struct s2",
+                             "unsigned long long", "struct s3", "double", "char *", "long double", "unsigned char"])
+    add("w", "struct s4", ["struct s4", "union u1", "struct s4", "double", "enum e1", "char16_t", "fp_t", "void *",
+                           "struct s3", "long", "enum e2", "union u1"])
     return sigs
 
 
@@ -1011,7 +1349,10 @@ def replay(detail):
         bad, label, is_error = check_case(L, sg, detail["mech"], detail["cfg"], addr, scn, case, rets, [])
         print(sig_decl(sg, "f"), "| mechanism:", detail["mech"], "| configuration:", detail["cfg"])
         print("argument index %d -> python saw %r" % (case[0], scn.seen))
-        print("body:", "raise BodyError" if case[1] == "raise" else "return %r  [%s]" % (rets[case[2]][1], label))
+        print("body:", "return %r  [%s]" % (rets[case[2]][1], label) if case[1] == "ret" else case[1])
+        if scn.inner is not None:
+            print("nested inner call: argument index %d, C received %s, escaped %r" % (scn.inner[0], scn.inner[1].hex(),
+                                                                                      scn.inner[2]))
         print("C received %d bytes: %s" % (L.res_len.value, bytes(L.res[:max(L.res_len.value, 0)]).hex()))
         print("unraisablehook calls:", HOOK_LOG, "onerror calls:", scn.onerror_calls)
         for b in bad:
